@@ -227,3 +227,37 @@ Theorem C04_c_wps_kernel_returns_the_dtw_value :
       aget wps' (Z.of_nat i * W + s)
       = sq_repr keep (mget (wps_matrix usq s1 s2) i (Z.to_nat (s + cw_shift l1 l2 window (Z.of_nat i - 1)))).
 Proof. intros window p m mld psi Hw usq s1 s2 d Hd1 Hd2 H1 H2 Hp1 Hp2. exact (c_wps_kernel_returns_the_dtw_value window p m mld psi Hw s1 s2 d Hd1 Hd2 H1 H2 Hp1 Hp2). Qed.
+
+(* THE EUCLIDEAN TWIN dtw_warping_paths_ndim_euclidean, regenerated whole as well: run for its value without a bound it
+   returns the DTW value under the Euclidean point distance (inner_dist = "euclidean"), every access in range, and the
+   compact array holds that specification matrix through the layout.  (Same proof over the twin's own regenerated loops:
+   CWpsCanonEu / CWpsTieEu / CWpsSpecEu.v.) *)
+Theorem C04_c_wps_euclidean_kernel_as_written :
+  forall (window p m mld : Z) (psi : (nat * nat) * (nat * nat)), (0 <= window)%Z ->
+  let uab := c_to_u (cs_of window p m mld psi AbsDiff) in
+  forall (s1 s2 : list point) (d : nat),
+  (forall q, In q s1 -> List.length q = d) -> (forall q, In q s2 -> List.length q = d) ->
+  (1 <= List.length s1)%nat -> (1 <= List.length s2)%nat ->
+  (psi_1b uab <= List.length s1)%nat -> (psi_2b uab <= List.length s2)%nat ->
+  forall cub1 cub2 (wps0 : list cost) (keep : bool),
+  let l1 := Z.of_nat (List.length s1) in let l2 := Z.of_nat (List.length s2) in
+  let W := cw_width l1 l2 window in
+  Z.of_nat (List.length wps0) = ((l1 + 1) * W)%Z ->
+  exists wps',
+    c_dtw_warping_paths_ndim_euclidean (cw_shift l1 l2 window) cub1 cub2 wps0 (List.concat s1) l1 (List.concat s2) l2 true keep false (Z.of_nat d)
+      ((l1 + 1) * W)%Z (c_parts_ldiff l1 l2) (c_parts_ldiffr l1 l2 (c_parts_ldiff l1 l2))
+      (c_parts_ldiffc l1 l2 (c_parts_ldiff l1 l2)) (c_parts_window l1 l2 window) W
+      (c_parts_ri1 l1 (c_parts_overlap_left l1 (c_parts_ldiffr l1 l2 (c_parts_ldiff l1 l2)) (c_parts_window l1 l2 window))
+                      (c_parts_overlap_right l1 (c_parts_ldiffr l1 l2 (c_parts_ldiff l1 l2)) (c_parts_window l1 l2 window)))
+      (c_parts_ri2 l1 (c_parts_overlap_left l1 (c_parts_ldiffr l1 l2 (c_parts_ldiff l1 l2)) (c_parts_window l1 l2 window)))
+      (c_parts_ri3 l1 (c_parts_overlap_left l1 (c_parts_ldiffr l1 l2 (c_parts_ldiff l1 l2)) (c_parts_window l1 l2 window))
+                      (c_parts_overlap_right l1 (c_parts_ldiffr l1 l2 (c_parts_ldiff l1 l2)) (c_parts_window l1 l2 window)))
+      (adj_max_step uab) Inf (Fin (adj_penalty uab)) false (Z.of_nat (psi_1b uab)) (Z.of_nat (psi_1e uab))
+      (Z.of_nat (psi_2b uab)) (Z.of_nat (psi_2e uab)) false
+    = (CLang.RPlain (dtw_value uab s1 s2), wps', true) /\
+    Z.of_nat (List.length wps') = ((l1 + 1) * W)%Z /\
+    forall (i : nat) (s : Z), (Z.of_nat i <= l1)%Z -> (0 <= s < W)%Z ->
+      (s + cw_shift l1 l2 window (Z.of_nat i - 1) <= l2)%Z ->
+      ((s + cw_shift l1 l2 window (Z.of_nat i - 1))%Z = 0%Z -> (Z.of_nat i <= cw_ri2 l1 l2 window)%Z) ->
+      aget wps' (Z.of_nat i * W + s) = mget (wps_matrix uab s1 s2) i (Z.to_nat (s + cw_shift l1 l2 window (Z.of_nat i - 1))).
+Proof. intros window p m mld psi Hw uab s1 s2 d Hd1 Hd2 H1 H2 Hp1 Hp2. exact (c_wps_eu_kernel_returns_the_dtw_value window p m mld psi Hw s1 s2 d Hd1 Hd2 H1 H2 Hp1 Hp2). Qed.
